@@ -3,4 +3,4 @@ CONSTANTS
   MaxServers <- TraceMax
 INIT TInit
 NEXT TNext
-INVARIANTS AliveBound AtMostOnce DistinctAddrs NoneLeftRunning Accepted
+INVARIANTS AliveBound AtMostOnce DistinctAddrs NoneLeftRunning SkippedUntouched OnlyAfterLoss Accepted
